@@ -92,6 +92,11 @@ func buildAccount(ct c13Content, r *Rng) *jwt.AccountClaims {
 			a.Limits.JetStreamTieredLimits[t] = jwt.JetStreamLimits{MemoryStorage: int64(sum), Streams: 3}
 		})
 	}
+	if r.Intn(2) == 0 {
+		// equal content however populated: through the map the constructor handed out, or through a map of the
+		// caller's own (nothing of any other account may show in either)
+		a.Limits.JetStreamTieredLimits = jwt.JetStreamTieredLimits{}
+	}
 	for _, i := range perm(r, len(steps)) {
 		steps[i]()
 	}
